@@ -88,4 +88,46 @@ Proof.
   eapply s_same_wf; eassumption.
 Qed.
 
+(* the same boundary edge when the next side of its triangle is interior: the triangle merges into the neighbouring face *)
+Theorem collapse_to_base_boundary_inner E n ks b0l l b1l b0r b1r c w cnt vid w' cnt' :
+  let q := beta w 2 b1l in let p0 := beta w 0 q in let p1 := beta w 1 q in
+  NoDup [b0l; l; b1l; q; p0; p1] -> ~ In 0 [b0l; l; b1l; q; p0; p1] ->
+  beta w 1 b0l = l -> beta w 1 l = b1l -> beta w 1 b1l = b0l -> beta w 1 p0 = q -> beta w 2 l = 0 ->
+  run E (collapse_edge_to_base n ks b0l l b1l b0r 0 b1r) c w cnt = (Done vid, w', cnt') ->
+  (forall i y, beta w' i y =
+     if (y =? l) || (y =? b1l) || (y =? q) then (if i <? 3 then 0 else beta w i y)
+     else if (i =? 1) && (y =? b0l) then p1 else if (i =? 0) && (y =? b0l) then p0
+     else if (i =? 1) && (y =? p0) then b0l else if (i =? 0) && (y =? p1) then b0l
+     else beta w i y) /\
+  (forall y, unused w' y = if (y =? l) || (y =? b1l) || (y =? q) then true else unused w y).
+Proof.
+  intros q p0 p1 Hnd Hz B1 B2 B3 B4 Ze Hr.
+  destruct (to_base_boundary_split _ _ _ _ _ _ _ _ _ _ _ _ _ _ Hr) as (w3 & c3 & wa & cnta & S & Eh & [Tb Tu]).
+  pose proof (s_same_b _ _ S) as Sb.
+  assert (Su : forall y, unused w3 y = unused w y) by (intros y; unfold unused; rewrite S; reflexivity).
+  pose proof (halfcell_to_base_inner E n ks b0l l b1l c w3 c3 wa cnta) as T. cbv zeta in T.
+  rewrite !Sb in T. fold q p0 p1 in T.
+  destruct (T Hnd Hz B1 B2 B3 B4 Ze Eh) as (Hb & Hu).
+  split.
+  - intros i y. rewrite Tb, Hb, !Sb. reflexivity.
+  - intros y. rewrite Tu, Hu, Su. reflexivity.
+Qed.
+
+Theorem collapse_to_base_boundary_inner_wf E n ks b0l l b1l b0r b1r c w cnt vid w' cnt' :
+  let q := beta w 2 b1l in let p0 := beta w 0 q in let p1 := beta w 1 q in
+  wf2 n w -> b0l < n ->
+  NoDup [b0l; l; b1l; q; p0; p1] -> ~ In 0 [b0l; l; b1l; q; p0; p1] ->
+  beta w 1 b0l = l -> beta w 1 l = b1l -> beta w 1 b1l = b0l -> beta w 2 l = 0 ->
+  run E (collapse_edge_to_base n ks b0l l b1l b0r 0 b1r) c w cnt = (Done vid, w', cnt') ->
+  wf2 n w'.
+Proof.
+  intros q p0 p1 W Hn Hnd Hz B1 B2 B3 Ze Hr.
+  destruct (to_base_boundary_split _ _ _ _ _ _ _ _ _ _ _ _ _ _ Hr) as (w3 & c3 & wa & cnta & S & Eh & Ht).
+  pose proof (s_same_b _ _ S) as Sb.
+  eapply wf2_ext; [|exact Ht].
+  pose proof (halfcell_to_base_inner_wf E n ks b0l l b1l c w3 c3 wa cnta) as T. cbv zeta in T.
+  rewrite !Sb in T. fold q p0 p1 in T.
+  apply T; try assumption. eapply s_same_wf; eassumption.
+Qed.
+
 End CollapseBase.
